@@ -111,6 +111,12 @@ def directed(rng, v, siblings=(), budget=24, sentinels=24):
                 for k in list(doc)[:6]:
                     for alt in ('NaN', 'Infinity', '-Infinity', '1e999', '-1', '"x"', '[]', '{}', 'null', 'true', '1.5', '99999999999999999999'):
                         out.append(('{%s}' % ', '.join('%s: %s' % (json.dumps(n), alt if n == k else json.dumps(x)) for n, x in doc.items())).encode('ascii'))
+        # dates at the ends of the calendar with a zone offset that carries them beyond it, and beyond the calendar
+        for m in list(re.finditer(rb'[A-Z][a-z]{2}, \d{2} [A-Z][a-z]{2} \d{4} \d{2}:\d{2}:\d{2} GMT', v))[:2]:
+            a, b = m.span()
+            for d in (b'Mon, 01 Jan 0001 00:00:00 +0001', b'0001-01-01 09:59:59 +10:00', b'Fri, 31 Dec 9999 23:59:59 -0100', b'9999-12-31 23:59:59 -00:01',
+                      b'Sat, 01 Jan 10000 00:00:00 GMT', b'Mon, 00 Jan 0000 00:00:00 GMT', b'Thu, 01 Jan 1970 00:00:00 +9999'):
+                out.append(v[:a] + d + v[b:])
         out.append(v.replace(b'\r\n', b'\n'))
         out.append(v.rstrip(b'\r\n') if v.rstrip(b'\r\n') != v else v + b'\n')
     else:
